@@ -35,11 +35,13 @@ type collector struct {
 	samples   []string
 	mode      string
 	shrinkCap map[string]int
+	coq       *coqWriter
 }
 
 func (c *collector) add(r *runner, kind string, id string) {
 	c.cases++
 	c.steps += len(r.ops)
+	c.coq.offer(r, kind, c.cases)
 	fmt.Fprintf(c.out, "C %s %s\n", id, kind)
 	for _, l := range r.lines {
 		c.out.WriteString(l)
@@ -371,6 +373,11 @@ func main() {
 	}
 	out := bufio.NewWriterSize(f, 1<<20)
 	c := &collector{out: out, nontriv: map[string]bool{}, hist: map[string]int{}, found: map[string]*found{}, mode: mode, shrinkCap: map[string]int{}}
+
+	if cv := os.Getenv("VERIF_CASES_V"); cv != "" {
+		c.coq = newCoqWriter(cv, tier == "thorough")
+		defer c.coq.close()
+	}
 
 	if rp := os.Getenv("VERIF_REPLAY_OPS"); rp != "" {
 		ops := parseOps(rp)
